@@ -80,10 +80,12 @@ pub fn run_with_interpreter(mut it: Interpreter<f32>) {
         };
         match readline {
             Ok(line) => {
+                // without a terminal rustyline hands back the line with its terminator
+                let line = line.trim_end_matches(|c| c == '\n' || c == '\r');
                 if line.is_empty() {
                     continue;
                 }
-                source.push_str(line.as_str());
+                source.push_str(line);
                 if check_bracket_closed(source.chars()) {
                     match it.eval(source.chars()) {
                         Ok(opt) => {
